@@ -8,6 +8,13 @@
 (* an asset generator is <<asset, abf>>.  Proofs are tokens that record what *)
 (* they were made for: a range proof is bound to (commitment, script,        *)
 (* generator), a surjection proof to (generator, input domain).              *)
+(*                                                                         *)
+(* An output is blinded in one of four modes: "expl" (nothing), "full"       *)
+(* (asset and value), "value" (value committed under the unblinded           *)
+(* generator of an explicit asset) and "asset" (explicit value under a       *)
+(* blinded generator).  Transaction::blind produces "full" only; the other   *)
+(* two are what wallets and issuance code produce with the lower-level       *)
+(* constructors, and the verifier has to treat them all.                     *)
 (***************************************************************************)
 EXTENDS Naturals, Sequences, FiniteSets, TLC, SequencesExt
 
@@ -24,18 +31,30 @@ SumF(F(_), s, i) == IF i > Len(s) THEN 0 ELSE F(s[i]) + SumF(F, s, i + 1)
 ---------------------------------------------------------------------------
 (* Transactions *)
 \* input  : [asset, v, abf, vbf, conf]                   (the spent output and its secrets)
-\* issue  : [on : input index (0 = no issuance), asset, v]   (explicit issuance pseudo-input, asset "N")
-\* output : [asset, v, marked, fee, script, conf, abf, vbf, rp, sp]
+\* issue  : [on : input index (0 = none), v, vc, vb, tv, tc, tb]
+\*          asset amount v of asset "N" (0 = Null), token amount tv of asset "T" (0 = Null); vc / tc: the amount is a
+\*          commitment (under the unblinded generator) with blinder vb / tb
+\* output : [asset, v, marked, want, fee, script, mode, abf, vbf, rp, sp]
 NoProof == <<"none">>
-Commit(o)    == << o.asset, o.v, IF o.conf THEN RR(o.v, o.abf, o.vbf) ELSE 0 >>
-GenOf(o)     == << o.asset, IF o.conf THEN o.abf ELSE 0 >>
-InCommit(i)  == << i.asset, i.v, IF i.conf THEN RR(i.v, i.abf, i.vbf) ELSE 0 >>
+VConf(o) == o.mode \in {"full", "value"}
+AConf(o) == o.mode \in {"full", "asset"}
+EAbf(o) == IF AConf(o) THEN o.abf ELSE 0
+EVbf(o) == IF VConf(o) THEN o.vbf ELSE 0
+ROut(o) == RR(o.v, EAbf(o), EVbf(o))
+Commit(o)    == << o.asset, o.v, ROut(o) >>
+GenOf(o)     == << o.asset, EAbf(o) >>
+RIn(i)       == IF i.conf THEN RR(i.v, i.abf, i.vbf) ELSE 0
+InCommit(i)  == << i.asset, i.v, RIn(i) >>
 InGen(i)     == << i.asset, IF i.conf THEN i.abf ELSE 0 >>
-\* surjection domain in the documented order: inp_1, [inp_1 issuance], inp_2, ...
-RECURSIVE DomainFrom(_, _, _)
-DomainFrom(ins, iss, k) ==
+\* the pseudo-inputs an issuance contributes, in the documented order: issued asset, then reissuance token
+Pseudo(iss) == (IF iss.v > 0 THEN << [asset |-> "N", v |-> iss.v, abf |-> 0, vbf |-> iss.vb, conf |-> iss.vc] >> ELSE << >>)
+               \o (IF iss.tv > 0 THEN << [asset |-> "T", v |-> iss.tv, abf |-> 0, vbf |-> iss.tb, conf |-> iss.tc] >> ELSE << >>)
+\* inputs interleaved with pseudo-inputs: inp_1, [inp_1 issuance, inp_1 tokens], inp_2, ...
+RECURSIVE AllIns(_, _, _)
+AllIns(ins, iss, k) ==
   IF k > Len(ins) THEN << >>
-  ELSE << InGen(ins[k]) >> \o (IF iss.on = k THEN << <<iss.asset, 0>> >> ELSE << >>) \o DomainFrom(ins, iss, k + 1)
+  ELSE << ins[k] >> \o (IF iss.on = k THEN Pseudo(iss) ELSE << >>) \o AllIns(ins, iss, k + 1)
+DomainFrom(ins, iss, k) == LET a == AllIns(ins, iss, k) IN [j \in DOMAIN a |-> InGen(a[j])]
 Domain(tx) == DomainFrom(tx.ins, tx.iss, 1)
 MkRP(o) == <<"rp", Commit(o), o.script, GenOf(o)>>
 MkSP(o, dom) == <<"sp", GenOf(o), dom>>
@@ -44,31 +63,28 @@ MkSP(o, dom) == <<"sp", GenOf(o), dom>>
 (* The verifier, check by check (Transaction::verify_tx_amt_proofs).       *)
 (* utxos is what the caller presents as the spent outputs.                  *)
 (***************************************************************************)
-Assets(tx, utxos) == { utxos[k].asset : k \in DOMAIN utxos } \cup { tx.outs[k].asset : k \in DOMAIN tx.outs } \cup (IF tx.iss.on = 0 THEN {} ELSE {tx.iss.asset})
+Assets(tx, utxos) == { utxos[k].asset : k \in DOMAIN utxos } \cup { tx.outs[k].asset : k \in DOMAIN tx.outs } \cup {"N", "T"}
 ValIf(x, a) == IF x.asset = a THEN x.v ELSE 0
-RIn(i)  == IF i.conf THEN RR(i.v, i.abf, i.vbf) ELSE 0
-ROut(o) == IF o.conf THEN RR(o.v, o.abf, o.vbf) ELSE 0
-\* zero-value explicit outputs: skipped on provably unspendable scripts, an error otherwise
-ZeroSkipped(o) == ~o.conf /\ o.v = 0 /\ o.script = "unspendable"
-ZeroIllegal(o) == ~o.conf /\ o.v = 0 /\ o.script # "unspendable"
+\* explicit zero values: skipped on provably unspendable scripts, an error otherwise (whatever the form of the asset)
+ZeroSkipped(o) == ~VConf(o) /\ o.v = 0 /\ o.script = "unspendable"
+ZeroIllegal(o) == ~VConf(o) /\ o.v = 0 /\ o.script # "unspendable"
 Counted(tx)    == SelectSeq(tx.outs, LAMBDA o : ~ZeroSkipped(o))
 
 Verify(tx, utxos) ==
   IF Len(utxos) # Len(tx.ins) THEN "UtxoInputLenMismatch"
   ELSE IF \E k \in DOMAIN tx.outs : ZeroIllegal(tx.outs[k]) THEN "NonUnspendableZeroValue"
-  ELSE IF \E k \in DOMAIN tx.outs : LET o == tx.outs[k] IN ~ZeroSkipped(o) /\ o.conf /\ o.rp = NoProof THEN "RangeProofMissing"
-  ELSE IF \E k \in DOMAIN tx.outs : LET o == tx.outs[k] IN ~ZeroSkipped(o) /\ o.conf /\ o.rp # MkRP(o) THEN "RangeProofError"
-  ELSE IF \E k \in DOMAIN tx.outs : LET o == tx.outs[k] IN ~ZeroSkipped(o) /\ o.conf /\ o.sp = NoProof THEN "SurjectionProofMissing"
-  ELSE IF \E k \in DOMAIN tx.outs : LET o == tx.outs[k] IN ~ZeroSkipped(o) /\ o.conf /\ o.sp # MkSP(o, DomainFrom(utxos, tx.iss, 1)) THEN "SurjectionProofVerificationError"
-  ELSE IF \E a \in Assets(tx, utxos) :
-            LET vin  == SumF(LAMBDA i : ValIf(i, a), utxos, 1) + (IF tx.iss.on # 0 /\ tx.iss.asset = a THEN tx.iss.v ELSE 0)
-                vout == SumF(LAMBDA o : ValIf(o, a), Counted(tx), 1)
-            IN vin # vout THEN "BalanceCheckFailed"
-  ELSE IF SumF(RIn, utxos, 1) % Q # SumF(ROut, Counted(tx), 1) % Q THEN "BalanceCheckFailed"
-  ELSE "OK"
+  ELSE IF \E k \in DOMAIN tx.outs : LET o == tx.outs[k] IN ~ZeroSkipped(o) /\ VConf(o) /\ o.rp = NoProof THEN "RangeProofMissing"
+  ELSE IF \E k \in DOMAIN tx.outs : LET o == tx.outs[k] IN ~ZeroSkipped(o) /\ VConf(o) /\ o.rp # MkRP(o) THEN "RangeProofError"
+  ELSE IF \E k \in DOMAIN tx.outs : LET o == tx.outs[k] IN ~ZeroSkipped(o) /\ AConf(o) /\ o.sp = NoProof THEN "SurjectionProofMissing"
+  ELSE IF \E k \in DOMAIN tx.outs : LET o == tx.outs[k] IN ~ZeroSkipped(o) /\ AConf(o) /\ o.sp # MkSP(o, DomainFrom(utxos, tx.iss, 1)) THEN "SurjectionProofVerificationError"
+  ELSE LET all == AllIns(utxos, tx.iss, 1) IN
+       IF \E a \in Assets(tx, utxos) : SumF(LAMBDA i : ValIf(i, a), all, 1) # SumF(LAMBDA o : ValIf(o, a), Counted(tx), 1) THEN "BalanceCheckFailed"
+       ELSE IF SumF(RIn, all, 1) % Q # SumF(ROut, Counted(tx), 1) % Q THEN "BalanceCheckFailed"
+       ELSE "OK"
 
 ---------------------------------------------------------------------------
-(* Blinding machine (Transaction::blind): outputs are visited in order.    *)
+(* Blinding machine: outputs are visited in order.  Transaction::blind is the machine restricted to want = "full";   *)
+(* the other modes are the lower-level constructors (new_not_last_confidential with a zero blinder / hand-built).   *)
 VARIABLES tx, pos, phase
 vars == <<tx, pos, phase>>
 
@@ -79,23 +95,23 @@ CONSTANT Skeletons      \* set of explicit, balanced transactions with a non-emp
 
 Init == tx \in Skeletons /\ pos = 1 /\ phase = "blind"
 
+Prove(o, t) == [o EXCEPT !.rp = IF VConf(o) THEN MkRP(o) ELSE NoProof, !.sp = IF AConf(o) THEN MkSP(o, Domain(t)) ELSE NoProof]
 SkipOut == /\ phase = "blind" /\ pos <= Len(tx.outs) /\ pos \notin Marked(tx)
            /\ pos' = pos + 1 /\ UNCHANGED <<tx, phase>>
 \* TxOut::new_not_last_confidential: fresh random asset and value blinders
 BlindNonLast == /\ phase = "blind" /\ pos \in Marked(tx) /\ pos # LastMarked(tx)
                 /\ \E abf \in Zq, vbf \in Zq :
-                     LET o1 == [tx.outs[pos] EXCEPT !.conf = TRUE, !.abf = abf, !.vbf = vbf]
-                         o2 == [o1 EXCEPT !.rp = MkRP(o1), !.sp = MkSP(o1, Domain(tx))]
-                     IN tx' = [tx EXCEPT !.outs[pos] = o2]
+                     LET o1 == [tx.outs[pos] EXCEPT !.mode = tx.outs[pos].want, !.abf = abf, !.vbf = vbf]
+                     IN tx' = [tx EXCEPT !.outs[pos] = Prove(o1, tx)]
                 /\ pos' = pos + 1 /\ UNCHANGED phase
-\* TxOut::new_last_confidential: the value blinder is solved from the balance equation
+\* TxOut::new_last_confidential: the value blinder is solved from the balance equation (the last one commits its value)
 BlindLast == /\ phase = "blind" /\ pos \in Marked(tx) /\ pos = LastMarked(tx)
              /\ \E abf \in Zq :
-                  LET others == SumF(ROut, [k \in DOMAIN tx.outs |-> IF k = pos THEN [tx.outs[k] EXCEPT !.conf = FALSE] ELSE tx.outs[k]], 1)
-                      vbf == Sub(Sub(SumF(RIn, tx.ins, 1) % Q, others % Q), Mul(tx.outs[pos].v, abf))
-                      o1 == [tx.outs[pos] EXCEPT !.conf = TRUE, !.abf = abf, !.vbf = vbf]
-                      o2 == [o1 EXCEPT !.rp = MkRP(o1), !.sp = MkSP(o1, Domain(tx))]
-                  IN tx' = [tx EXCEPT !.outs[pos] = o2]
+                  LET o0 == [tx.outs[pos] EXCEPT !.mode = tx.outs[pos].want, !.abf = abf, !.vbf = 0]
+                      others == SumF(ROut, [k \in DOMAIN tx.outs |-> IF k = pos THEN o0 ELSE tx.outs[k]], 1)
+                      vbf == Sub(SumF(RIn, AllIns(tx.ins, tx.iss, 1), 1) % Q, others % Q)
+                      o1 == [o0 EXCEPT !.vbf = vbf]
+                  IN tx' = [tx EXCEPT !.outs[pos] = Prove(o1, tx)]
              /\ pos' = pos + 1 /\ UNCHANGED phase
 Finish == /\ phase = "blind" /\ pos > Len(tx.outs) /\ phase' = "done" /\ UNCHANGED <<tx, pos>>
 Next == SkipOut \/ BlindNonLast \/ BlindLast \/ Finish
@@ -103,32 +119,35 @@ Spec == Init /\ [][Next]_vars
 
 \* C04: whatever the random choices, the blinded transaction verifies against the spent outputs
 BlindedVerifies == phase = "done" => Verify(tx, tx.ins) = "OK"
-AllMarkedBlinded == phase = "done" => \A k \in DOMAIN tx.outs : tx.outs[k].conf <=> k \in Marked(tx)
+AllMarkedBlinded == phase = "done" => \A k \in DOMAIN tx.outs : (tx.outs[k].mode # "expl") <=> k \in Marked(tx)
 
 ---------------------------------------------------------------------------
 (* Tampers (C05): single-location changes of a verifying (tx, utxos).      *)
 OtherAsset(a) == IF a = "A" THEN "B" ELSE "A"
+VC(t) == { j \in DOMAIN t.outs : VConf(t.outs[j]) }
+AC(t) == { j \in DOMAIN t.outs : AConf(t.outs[j]) }
 TamperedOutputs(t) ==
   \* explicit amount / asset changes
-  { [t EXCEPT !.outs[k].v = @ + 1] : k \in { j \in DOMAIN t.outs : ~t.outs[j].conf } }
-  \cup { [t EXCEPT !.outs[k].asset = OtherAsset(@)] : k \in { j \in DOMAIN t.outs : ~t.outs[j].conf /\ ~ZeroSkipped(t.outs[j]) } }   \* (a skipped zero-value output carries no amount of any asset)
+  { [t EXCEPT !.outs[k].v = @ + 1] : k \in DOMAIN t.outs \ VC(t) }
+  \cup { [t EXCEPT !.outs[k].asset = OtherAsset(@)] : k \in { j \in DOMAIN t.outs \ AC(t) : ~ZeroSkipped(t.outs[j]) } }   \* (a skipped zero-value output carries no amount of any asset)
   \* commitment replaced (another blinder) / exchanged between two blinded outputs
-  \cup { [t EXCEPT !.outs[k].vbf = Add(@, 1)] : k \in { j \in DOMAIN t.outs : t.outs[j].conf } }
-  \cup { [t EXCEPT !.outs[k].abf = Add(@, 1)] : k \in { j \in DOMAIN t.outs : t.outs[j].conf } }
-  \cup { [t EXCEPT !.outs[k].v = t.outs[j].v, !.outs[k].abf = t.outs[j].abf, !.outs[k].vbf = t.outs[j].vbf, !.outs[k].asset = t.outs[j].asset,
-                   !.outs[j].v = t.outs[k].v, !.outs[j].abf = t.outs[k].abf, !.outs[j].vbf = t.outs[k].vbf, !.outs[j].asset = t.outs[k].asset]
-         : k \in { x \in DOMAIN t.outs : t.outs[x].conf }, j \in { x \in DOMAIN t.outs : t.outs[x].conf } }
+  \cup { [t EXCEPT !.outs[k].vbf = Add(@, 1)] : k \in VC(t) }
+  \cup { [t EXCEPT !.outs[k].abf = Add(@, 1)] : k \in AC(t) }
+  \cup { [t EXCEPT !.outs[k].v = t.outs[j].v, !.outs[k].abf = t.outs[j].abf, !.outs[k].vbf = t.outs[j].vbf, !.outs[k].asset = t.outs[j].asset, !.outs[k].mode = t.outs[j].mode,
+                   !.outs[j].v = t.outs[k].v, !.outs[j].abf = t.outs[k].abf, !.outs[j].vbf = t.outs[k].vbf, !.outs[j].asset = t.outs[k].asset, !.outs[j].mode = t.outs[k].mode]
+         : k \in VC(t), j \in VC(t) }
   \* proofs removed, exchanged, corrupted
-  \cup { [t EXCEPT !.outs[k].rp = NoProof] : k \in { j \in DOMAIN t.outs : t.outs[j].conf } }
-  \cup { [t EXCEPT !.outs[k].sp = NoProof] : k \in { j \in DOMAIN t.outs : t.outs[j].conf } }
-  \cup { [t EXCEPT !.outs[k].rp = <<"rp", "garbage">>] : k \in { j \in DOMAIN t.outs : t.outs[j].conf } }
-  \cup { [t EXCEPT !.outs[k].sp = <<"sp", "garbage">>] : k \in { j \in DOMAIN t.outs : t.outs[j].conf } }
-  \cup { [t EXCEPT !.outs[k].rp = t.outs[j].rp, !.outs[j].rp = t.outs[k].rp] : k \in { x \in DOMAIN t.outs : t.outs[x].conf }, j \in { x \in DOMAIN t.outs : t.outs[x].conf } }
-  \cup { [t EXCEPT !.outs[k].sp = t.outs[j].sp, !.outs[j].sp = t.outs[k].sp] : k \in { x \in DOMAIN t.outs : t.outs[x].conf }, j \in { x \in DOMAIN t.outs : t.outs[x].conf } }
-  \* script of a blinded output
-  \cup { [t EXCEPT !.outs[k].script = "other"] : k \in { j \in DOMAIN t.outs : t.outs[j].conf } }
-  \* issuance amount
-  \cup (IF t.iss.on = 0 THEN {} ELSE { [t EXCEPT !.iss.v = @ + 1] })
+  \cup { [t EXCEPT !.outs[k].rp = NoProof] : k \in VC(t) }
+  \cup { [t EXCEPT !.outs[k].sp = NoProof] : k \in AC(t) }
+  \cup { [t EXCEPT !.outs[k].rp = <<"rp", "garbage">>] : k \in VC(t) }
+  \cup { [t EXCEPT !.outs[k].sp = <<"sp", "garbage">>] : k \in AC(t) }
+  \cup { [t EXCEPT !.outs[k].rp = t.outs[j].rp, !.outs[j].rp = t.outs[k].rp] : k \in VC(t), j \in VC(t) }
+  \cup { [t EXCEPT !.outs[k].sp = t.outs[j].sp, !.outs[j].sp = t.outs[k].sp] : k \in AC(t), j \in AC(t) }
+  \* script of an output with a committed value
+  \cup { [t EXCEPT !.outs[k].script = "other"] : k \in VC(t) }
+  \* issuance amounts: explicit ones changed, committed ones replaced
+  \cup (IF t.iss.on # 0 /\ t.iss.v > 0 THEN { IF t.iss.vc THEN [t EXCEPT !.iss.vb = Add(@, 1)] ELSE [t EXCEPT !.iss.v = @ + 1] } ELSE {})
+  \cup (IF t.iss.on # 0 /\ t.iss.tv > 0 THEN { IF t.iss.tc THEN [t EXCEPT !.iss.tb = Add(@, 1)] ELSE [t EXCEPT !.iss.tv = @ + 1] } ELSE {})
 TamperedUtxos(u) ==
   { [u EXCEPT ![k].v = @ + 1] : k \in DOMAIN u } \cup { [u EXCEPT ![k].asset = OtherAsset(@)] : k \in DOMAIN u }
   \cup { [u EXCEPT ![k].vbf = Add(@, 1)] : k \in { j \in DOMAIN u : u[j].conf } }
@@ -140,5 +159,6 @@ TampersRejected ==
     /\ \A t \in TamperedOutputs(tx) : t # tx => Verify(t, tx.ins) # "OK"
     /\ \A u \in TamperedUtxos(tx.ins) : u # tx.ins => Verify(tx, u) # "OK"
     /\ Verify(tx, SubSeq(tx.ins, 1, Len(tx.ins) - 1)) = "UtxoInputLenMismatch"
-    /\ \A k \in { j \in DOMAIN tx.outs : tx.outs[j].conf } : Verify([tx EXCEPT !.outs[k].rp = NoProof], tx.ins) = "RangeProofMissing"
+    /\ \A k \in VC(tx) : Verify([tx EXCEPT !.outs[k].rp = NoProof], tx.ins) = "RangeProofMissing"
+    /\ \A k \in AC(tx) \ VC(tx) : Verify([tx EXCEPT !.outs[k].sp = NoProof], tx.ins) = "SurjectionProofMissing"
 =============================================================================
